@@ -327,7 +327,12 @@ var DefaultResolver = &Resolver{}
 
 func (w *World) lookup(host string) ([]net.IP, error) {
 	simrt.Yield()
-	ips, ok := w.dns[strings.ToLower(strings.TrimSuffix(host, "."))]
+	key := strings.ToLower(strings.TrimSuffix(host, "."))
+	ips, ok := w.dns[key]
+	if next := w.dnsSeq[key]; len(next) > 0 {
+		// the next lookup gets the next answer
+		w.dns[key], w.dnsSeq[key] = next[0], next[1:]
+	}
 	simrt.Eventf("net dns node=%s host=%s found=%v", curNode(), host, ok)
 	if !ok || len(ips) == 0 {
 		return nil, &net.DNSError{Err: "no such host", Name: host, IsNotFound: true}
